@@ -266,7 +266,7 @@ class Translator:
         a = self.opargs[op]
         res = ev.get("res")
         entry = str(self.keyranks_nodes.get(a.get("at"), -9))
-        if self.prev_state is not None and self.prev_state.get(entry, {}).get("st") != "Active":
+        if self.prev_state is not None and self.prev_state.get(entry, {}).get("st", "Inactive") in ("Inactive", "Left"):
             return self.add(ev, {"act": "Stutter"})      # the generator picked an entry node that is not a member (yet / any more)
         err = res.get("err") if isinstance(res, dict) else res
         rec = {"act": "Op", "kind": kind, "k": self.kidx[self._keyrank(a["k"])], "arg": int(a.get("v") or 0),
